@@ -18,6 +18,15 @@ pub trait OSSWUMap: CurveProjective {
     fn osswu_map(u: &<Self as CurveProjective>::Base) -> Self;
 }
 
+#[cfg(feature = "verif")]
+pub fn verif_osswu_help<F: Field>(u: &F, xi: &F, ellp_a: &F, ellp_b: &F) -> [F; 7] {
+    osswu_help(u, xi, ellp_a, ellp_b)
+}
+#[cfg(feature = "verif")]
+pub use self::chain::chain_p2m9div16 as verif_chain_p2m9div16;
+#[cfg(feature = "verif")]
+pub use self::chain::chain_pm3div4 as verif_chain_pm3div4;
+
 #[inline(always)]
 fn osswu_help<F: Field>(u: &F, xi: &F, ellp_a: &F, ellp_b: &F) -> [F; 7] {
     let usq = {
